@@ -81,6 +81,9 @@ def run_kani(harnesses, target_dir, timeout_s, jobs, log_path, extra=None, crate
     return rc, wall, data
 
 
+# per-harness time limits above the defaults (measured: the calendar-layer harnesses of C15 need 60..1200 s each)
+HARNESS_TIMEOUT = {("C15", "quick"): 1800, ("C15", "thorough"): 3600}
+
 UNWIND_PAT = re.compile(r"unwinding assertion|recursion unwinding", re.I)
 
 
@@ -131,14 +134,18 @@ def replay_counterexample(prop, harness, info, tier):
         subprocess.run(cmd, cwd=work, env=offline_env(), stdout=lf, stderr=subprocess.STDOUT, timeout=3600)
     # the unit test is printed between ``` fences; it is appended to the harness module by run_playback
     src = open(log).read()
-    m = re.search(r"(#\[test\]\s*fn kani_concrete_playback_" + re.escape(harness) + r"\w*\s*\(\)\s*\{.*?\n\}\n)", src, re.S)
+    # Kani prints one test per failed check AND one per satisfied cover: only the former are counterexamples
+    tests = re.findall(r"/// Check for `(\w+)`:[^\n]*\n\s*\n?(#\[test\]\s*fn kani_concrete_playback_" + re.escape(harness) + r"\w*\s*\(\)\s*\{.*?\n\}\n)", src, re.S)
+    cex = [t for kind, t in tests if kind != "cover"]
+    if not tests:  # older output without the header
+        cex = re.findall(r"(#\[test\]\s*fn kani_concrete_playback_" + re.escape(harness) + r"\w*\s*\(\)\s*\{.*?\n\}\n)", src, re.S)[:1]
     os.makedirs(os.path.join(REPLAYS, prop), exist_ok=True)
     rpath = os.path.join(REPLAYS, prop, f"{harness}.playback.rs")
-    if not m:
+    if not cex:
         return None, rpath, "Kani produced no concrete playback test"
     with open(rpath, "w") as f:
         f.write(f"// engine=K property={prop} harness={harness} module={info['module']}\n")
-        f.write(m.group(1))
+        f.write(cex[0])
     ok, text = run_playback(prop, rpath)
     return ok, rpath, text
 
@@ -153,6 +160,8 @@ def run_playback(prop, rpath, work_ready=None):
         work = os.path.join(CACHE, "replay", harness)
         shutil.rmtree(work, ignore_errors=True)
         shutil.copytree(KANI_DIR, work, ignore=shutil.ignore_patterns("target"))
+        # native playback runs compact-calendar's source on the REAL std VecDeque, not on the model
+        shutil.copy(os.path.join(KANI_DIR, "model_deque_real.rs"), os.path.join(work, "src", "model_deque.rs"))
         with open(os.path.join(work, "src", module + ".rs"), "a") as f:
             f.write("\n" + text.split("\n", 1)[1])
     tname = re.search(r"fn (kani_concrete_playback_\w+)", text).group(1)
@@ -179,10 +188,22 @@ def run_property(prop, tier, out, timeout_q=300, timeout_t=2400, jobs=16):
     hs = list_harnesses(prop)
     if not hs:
         return
+    try:
+        import gen_cc
+        gen_cc.generate()  # compact-calendar's current source against the bounded deque model (C15 calendar layer)
+    except SystemExit as e:
+        out.inconclusive.append(f"K: {e}")
+        return
     sel = [h for h in hs if "_q_" in h or "_kf_" in h or (tier == "thorough" and "_t_" in h)]
     sel.sort()
+    only = os.environ.get("VERIF_K_ONLY")  # debugging aid (seed campaign): regex over harness names; evidence is then partial
+    if only:
+        sel = [h for h in sel if re.search(only, h)]
+        if not sel:
+            return
     known = {e["key"]: e for e in load_known_findings(prop) if e.get("status") == "known" and e.get("engine") == "K"}
     timeout = timeout_q if tier == "quick" else timeout_t
+    timeout = max(timeout, HARNESS_TIMEOUT.get((prop, tier), 0))
     # one shared target directory: dependencies are compiled once (setup), cargo's own lock serialises concurrent runs
     tdir = os.path.join(CACHE, "kani-target", "shared")
     log = os.path.join(LOGS, f"{prop}.kani.{tier}.log")
